@@ -33,6 +33,9 @@ type mutant struct {
 	Reverse bool     `json:"reverse"`
 	Expect  []string `json:"expect"` // properties of which at least one must fire
 	Config  string   `json:"config"`
+	// DocumentedMiss: the change is known to be outside what the rules decide (reason); it is
+	// kept in the sweep so that the evidence shows it, and does not fail the selftest.
+	DocumentedMiss string `json:"documented_miss,omitempty"`
 }
 
 type mutantResult struct {
@@ -75,6 +78,7 @@ func loadMutants(vd string) ([]mutant, error) {
 			Property string   `json:"property"`
 			Expect   []string `json:"expect"`
 			Config   string   `json:"config"`
+			Miss     string   `json:"documented_miss"`
 		}
 		mb, err := os.ReadFile(filepath.Join(d, "meta.json"))
 		if err != nil {
@@ -87,7 +91,7 @@ func loadMutants(vd string) ([]mutant, error) {
 		if len(ex) == 0 {
 			ex = []string{meta.Property}
 		}
-		ms = append(ms, mutant{Name: "seed-" + filepath.Base(d), Patch: f, Expect: ex, Config: meta.Config})
+		ms = append(ms, mutant{Name: "seed-" + filepath.Base(d), Patch: f, Expect: ex, Config: meta.Config, DocumentedMiss: meta.Miss})
 	}
 	for i := range ms {
 		if ms[i].Config == "" {
@@ -218,6 +222,7 @@ func runMutant(repo string, m mutant, known *an.KnownFindings, cacheDir string) 
 }
 
 func (r *mutantResult) judge() {
+	// the mutant description may have changed since the result was cached
 	r.ByExpect = nil
 	for _, f := range r.Flagged {
 		for _, e := range r.Mutant.Expect {
@@ -290,7 +295,7 @@ func cmdSelftest(args []string) int {
 		}
 	}
 	rs := runMutants(*repo, sel, mutantCacheDir(*repo))
-	killed, skipped, missed := 0, 0, 0
+	killed, skipped, missed, documented := 0, 0, 0, 0
 	for _, r := range rs {
 		switch {
 		case !r.Applied:
@@ -302,12 +307,15 @@ func cmdSelftest(args []string) int {
 		case r.Killed:
 			killed++
 			fmt.Printf("KILLED %-70s expected %v: %s   (all: %s)\n", r.Mutant.Name, r.Mutant.Expect, strings.Join(r.ByExpect, " "), strings.Join(r.Flagged, " "))
+		case r.Mutant.DocumentedMiss != "":
+			documented++
+			fmt.Printf("NOT-DECIDED %-65s %s\n", r.Mutant.Name, r.Mutant.DocumentedMiss)
 		default:
 			missed++
 			fmt.Printf("MISSED %-70s expected %v, flagged only: %s\n", r.Mutant.Name, r.Mutant.Expect, strings.Join(r.Flagged, " "))
 		}
 	}
-	fmt.Printf("selftest: %d mutants, %d killed, %d missed, %d skipped (patch does not apply); unchanged tree: %d unexpected reports\n", len(rs), killed, missed, skipped, base)
+	fmt.Printf("selftest: %d mutants, %d killed, %d missed, %d documented as outside the rules' reach, %d skipped (patch does not apply); unchanged tree: %d unexpected reports\n", len(rs), killed, missed, documented, skipped, base)
 	if *outf != "" {
 		an.WriteJSON(*outf, rs)
 	}
